@@ -134,7 +134,8 @@ def build(spec, seed=0):
                 elif k == 'cat':
                     ts = [v[j] for j in nd['src']]
                     d = nd.get('sdim', nd['dim'])
-                    v.append(torch.cat(ts, dim=d) if nd.get('kw', True) else torch.cat(ts, d))
+                    catf = {'concat': torch.concat, 'concatenate': torch.concatenate}.get(nd.get('alias'), torch.cat)
+                    v.append(catf(ts, dim=d) if nd.get('kw', True) else catf(ts, d))
                 elif k == 'relu_f':
                     v.append(torch.relu(v[nd['src']]))
                 elif k == 'flatten' and nd.get('form') != 'module':
@@ -185,6 +186,11 @@ def build(spec, seed=0):
                 mod.running_var.copy_(torch.rand(mod.running_var.shape, generator=g) * 1.5 + 0.5)
                 mod.weight.copy_(torch.rand(mod.weight.shape, generator=g) + 0.5)
                 mod.bias.zero_()
+    # layers the user froze (a pre-trained block that is only fine-tuned around): requires_grad = False on weight / bias
+    for i, nd in enumerate(nodes):
+        if nd.get('wfrozen') and 'n%d' % i in m.layers:
+            for q in m.layers['n%d' % i].parameters():
+                q.requires_grad_(False)
     return m
 
 
@@ -502,6 +508,7 @@ def gen(rng, dim=None, depth=None, **opts):
                 live.update([s] if isinstance(s, int) else s)
         if len(live) == len(spec['nodes']):
             respell(spec, rng, opts.get('p_negative_axis', 0.4))
+            attributes(spec, rng, opts)
             return spec
 
 
@@ -577,6 +584,22 @@ def _gen(rng, dim=None, depth=None, **opts):
         spec['rewrap'] = True
         g.prod.append('rewrap-with-features-frozen')
     return spec
+
+
+def attributes(spec, rng, opts):
+    """per-layer attributes that do not change the dataflow: weight-frozen layers (requires_grad False on weight / bias of a random
+    subset of conv / linear / BatchNorm layers before PIT(...)), and — rarely — a cat spelled with an alias (torch.concat /
+    torch.concatenate), which PLiNIO may refuse at construction (ValueError: Unsupported node) but must handle correctly if it accepts it"""
+    nodes = spec['nodes']
+    if rng.random() < opts.get('p_weight_frozen', 0.3):
+        layers = [i for i, nd in enumerate(nodes) if nd['k'] in ('conv1d', 'conv2d', 'linear', 'bn1d', 'bn2d') and nd.get('pit') is None]
+        for i in rng.sample(layers, min(len(layers), rng.randint(1, 3))):
+            nodes[i]['wfrozen'] = True
+        spec.setdefault('productions', []).append('weight-frozen-layers')
+    cats = [i for i, nd in enumerate(nodes) if nd['k'] == 'cat']
+    if cats and rng.random() < opts.get('p_cat_alias', 0.05):
+        nodes[rng.choice(cats)]['alias'] = rng.choice(['concat', 'concatenate'])
+        spec.setdefault('productions', []).append('cat-alias')
 
 
 def respell(spec, rng, p_neg):
@@ -708,7 +731,7 @@ def describe(spec):
     def ax(nd):
         d = nd.get('sdim', nd.get('dim')) if nd['k'] == 'cat' else nd.get('sstart') if nd['k'] == 'flatten' else nd.get('dim') if nd['k'] in ('squeeze', 'unsqueeze') else None
         return '' if d is None or (nd['k'] == 'cat' and d == 1) or (nd['k'] == 'flatten' and d == 1) else '[%s%d]' % ('dim=' if nd.get('kw') else '', d)
-    s = ' '.join('%d:%s%s' % (i, nd['k'] + ax(nd) + ('*' if listed(spec, i) else '') + ('!' if nd.get('pit') is not None else ''), ('<-' + str(nd['src'])) if 'src' in nd else '') for i, nd in enumerate(spec['nodes']))
+    s = ' '.join('%d:%s%s' % (i, nd['k'] + (':' + nd['alias'] if nd.get('alias') else '') + ax(nd) + ('*' if listed(spec, i) else '') + ('#' if nd.get('wfrozen') else '') + ('!' if nd.get('pit') is not None else ''), ('<-' + str(nd['src'])) if 'src' in nd else '') for i, nd in enumerate(spec['nodes']))
     if spec.get('exclude_types'):
         s += ' exclude_types=%s' % spec['exclude_types']
     if not spec.get('autoconvert', True):
